@@ -190,7 +190,8 @@ META = {
             'and validates every step of recorded real sweeps: non-negative '
             'parts, closed-form friction / gravity increments, one loss per '
             'grid in (zlo, zhi], additivity over parts and regions, every '
-            'grid charged exactly once, total = closed form, and step-size '
+            'grid charged exactly once, total = closed form, the printed table '
+            'and the per-step dump file show the ledger, and step-size '
             'independence on run pairs.',
     'note': 'Closed forms use the solver\'s own friction factor and velocity '
             '(static, bundle-average temperature). Trusted: '
